@@ -18,7 +18,7 @@ class ContainersMixin:
                 return Vc(rv.items, rv.n, hint[0])
             return rv
         if name == "len":
-            return I(rv.n, "usize")
+            return I(rv.n, "usize", len(rv.items))
         if name == "is_empty":
             return ip.eq(I(rv.n), I(0))
         if name == "capacity":
@@ -229,22 +229,27 @@ class ContainersMixin:
     def sort_vec(self, v, cmpf):
         """stable insertion sort on a concrete-length vector with symbolic keys"""
         ip = self.ip
-        if not isinstance(v.n, int):
-            # sort the first n slots: pad comparisons so that junk slots stay behind
-            raise Unsupported("sort of symbolic-length vec")
-        items = list(v.items[: v.n])
+        conc = isinstance(v.n, int)
+        items = list(v.items[: v.n]) if conc else [x for x in v.items]
+        while items and items[-1] is None:
+            items.pop()
         n = len(items)
         for i in range(1, n):
             j = i
             while j > 0:
                 a, b = items[j - 1], items[j]
-                o = cmpf(a, b)
-                gt = ip.tag_eq(o, 2)
+                # slots beyond a symbolic length are junk: never move them
+                inr = True if conc else self.vec_in(v, i)
+                if inr is False:
+                    break
+                with ip.under(inr):
+                    o = cmpf(a, b)
+                gt = band(inr, ip.tag_eq(o, 2))
                 if gt is False:
                     break
                 items[j - 1], items[j] = ite(gt, b, a), ite(gt, a, b)
                 j -= 1
-        return Vc(items, None, v.kind)
+        return Vc(items, None if conc else v.n, v.kind)
 
     def heap_max(self, rv):
         """index (I) of a maximal element by Ord (first among equals)"""
@@ -394,7 +399,7 @@ class ContainersMixin:
         while isinstance(v, Rf):
             place = v.place.ext(*place.path)
             v = place.scope.vars[place.var]
-        t = None
+        t = place.scope.types.get(place.var)
         cur = v
         for acc in place.path:
             if acc[0] == "f" and isinstance(cur, St) and cur.name in ip.structs:
